@@ -15,7 +15,7 @@ from ..ref import asm, isa, merkle
 
 ID = 'C04'
 RULE = ('all binary tree shapes with 2..6 (quick) / 2..8 (thorough) leaves '
-        'built with ScriptNode/ScriptLeaf, every leaf proven; prioritized and '
+        'built with ScriptNode/ScriptLeaf (thorough: up to 9), every leaf proven; prioritized and '
         'balanced builders for 1..24 leaves; verdict-diverse leaf bodies up '
         'to the item limit; per proof the corruptions {flip script byte, flip '
         'sibling byte, swap two levels, drop a level, splice foreign leaf, '
@@ -439,7 +439,7 @@ def judge_builder(ctx, rng, nleaves, which):
 
 def run_shard(spec, ctx):
     i, of = spec['shard'], spec['of']
-    maxleaves = 6 if ctx.tier == 'quick' else 8
+    maxleaves = 6 if ctx.tier == 'quick' else 9
     saved = install_tracer()
     try:
         idx = 0
